@@ -20,6 +20,8 @@ FlowPool == {[from |-> "sysenv", to |-> "A", dims |-> <<"t", "r">>, override |->
              [from |-> "A", to |-> "B", dims |-> <<"r", "t", "e">>, override |-> ""],
              [from |-> "A", to |-> "B", dims |-> <<"e">>, override |-> "second A to B"],
              [from |-> "B", to |-> "sysenv", dims |-> <<>>, override |-> ""],
+             \* an override that is the EMPTY string (written "<empty>" here; "" means "no override" in this model): a name like any other
+             [from |-> "sysenv", to |-> "A", dims |-> <<"t">>, override |-> "<empty>"],
              [from |-> "use phase", to |-> "A", dims |-> <<"t">>, override |-> ""],
              [from |-> "A", to |-> "X", dims |-> <<"t">>, override |-> ""],          \* undefined process
              [from |-> "B", to |-> "A", dims |-> <<"t", "z">>, override |-> ""]}     \* undefined letter
@@ -32,7 +34,12 @@ StockPool ==
     {[name |-> "in use", cls |-> c, lm |-> l, solver |-> s, tl |-> tl, proc |-> p, dims |-> ds] :
         c \in AllClasses \cup {"UserStockDrivenDSM"}, l \in {"", "FixedLifetime", "WeibullLifetime"}, s \in {"manual", "lapack"},
         tl \in {"t", "r"}, p \in {"", "A", "X"}, ds \in {<<"t", "r">>, <<"r", "t">>, <<"t">>, <<"t", "z">>}}
-StockLists == {<<>>} \cup {<<s>> : s \in StockPool}
+\* two stocks in one definition: every combination of (no process / process A / process B) for the first and the second one -
+\* each stock gets ITS OWN process (or none), whatever the stock listed before it had
+TwoStocks == {<< [name |-> "in use", cls |-> "SimpleFlowDrivenStock", lm |-> "", solver |-> "manual", tl |-> "t", proc |-> p1, dims |-> <<"t", "r">>],
+                 [name |-> "landfill", cls |-> "SimpleFlowDrivenStock", lm |-> "", solver |-> "manual", tl |-> "t", proc |-> p2, dims |-> <<"t">>] >> :
+                 p1 \in {"", "A", "B"}, p2 \in {"", "A", "B"}}
+StockLists == {<<>>} \cup {<<s>> : s \in StockPool} \cup TwoStocks
 ParamLists == {<<>>, << [name |-> "alpha", dims |-> <<"r", "t">>] >>,
                << [name |-> "alpha", dims |-> <<"t">>], [name |-> "beta", dims |-> <<"e", "r">>] >>,
                << [name |-> "gamma", dims |-> <<"z">>] >>}
